@@ -272,7 +272,15 @@ def gen_program(rng, opts=None):
                     involved = _target_sigs(t)
                     rd = [x for x in rd if all(x in readable_for(s2, "comb") for s2 in involved)]
                     t = _restrict_target(t, rd, sigs)
-                stmts.append(["assign", dom, t, g.numeric(rd, o["depth"])])
+                rhs = g.numeric(rd, o["depth"])
+                if dom == "comb" and o.get("clock_reads") and r.random() < 0.2:
+                    # late-bound ClockSignal()/ResetSignal() of a domain name, read by combinational logic
+                    dn = r.choice(domains)["name"]
+                    kinds = ["clk"] + (["rst"] if all(not d["reset_less"] for d in domains) else [])
+                    rhs = [r.choice(["^", "+", "mux"]), [r.choice(kinds), dn], rhs] if r.random() < 0.7 else [r.choice(kinds), dn]
+                    if rhs[0] == "mux":
+                        rhs = ["mux", rhs[1], rhs[2], g.numeric(rd, 1)]
+                stmts.append(["assign", dom, t, rhs])
                 if dom not in m["stmt_domains"]:
                     m["stmt_domains"].append(dom)
             else:
@@ -462,7 +470,7 @@ class Built:
 def build(prog):
     """-> Built with .top (Elaboratable), .sigs (list of Signal), .ongoing {(fsm id, state): Signal}"""
     from amaranth.hdl import (Module, Signal, Const, Cat, Mux, Array, signed, unsigned, Elaboratable, ResetInserter,
-                              EnableInserter, DomainRenamer, Print, Assert, Assume, Format)
+                              EnableInserter, DomainRenamer, Print, Assert, Assume, Format, ClockSignal, ResetSignal)
     B = Built()
     B.sigs = [Signal(signed(s["width"]) if s["signed"] else unsigned(s["width"]), name=s["name"],
                      init=(s["init"] - (1 << s["width"]) if (s["signed"] and s["width"] and s["init"] >> (s["width"] - 1))
@@ -477,6 +485,10 @@ def build(prog):
             return sigs[e[1]]
         if op == "const":
             return Const(e[1], signed(e[2]) if e[3] else unsigned(e[2]))
+        if op == "clk":
+            return ClockSignal(e[1])
+        if op == "rst":
+            return ResetSignal(e[1])
         if op in ("+", "-", "*", "//", "%", "&", "|", "^", "==", "!=", "<", "<=", ">", ">=", "<<", ">>"):
             a, b = ex(e[1]), ex(e[2])
             return {"+": lambda: a + b, "-": lambda: a - b, "*": lambda: a * b, "//": lambda: a // b, "%": lambda: a % b,
